@@ -20,52 +20,42 @@ def main():
     cfg = {'unwind': 2, 'unwind_all': 3, 'timeout_ms': 120000, 'chan_pool': 0, 'chan_pool_by_name': {'waiter': 2}}
     res = []
     # notify primitive
-    c1 = Check('C16', [MOD + '/internal/notify'], 'internal/notify', ['C16/zz_verif_c16_notify.go'],
-               installers=[seqchan.install, bmc.install], prelude_pkgname='notify')
+    # one front-end run per package: the BMC and the coop harness files are loaded together, the engine is chosen per job
+    c1 = Check('C16', [MOD + '/internal/notify'], 'internal/notify', ['C16/zz_verif_c16_notify.go', 'C16/zz_verif_c16_notify_coop.go'],
+               installers=[seqchan.install], prelude_pkgname='notify')
     P1 = MOD + '/internal/notify.'
-    c1.load([P1 + 'VerifC16Notify'])
-    j1 = [Job(P1 + 'VerifC16Notify', a, cfg=cfg, max_paths=100000) for a in
+    c1.load([P1 + 'VerifC16Notify', P1 + 'VerifC16NotifyCoop'])
+    j1 = [Job(P1 + 'VerifC16Notify', a, cfg=cfg, max_paths=100000, installers=[bmc.install]) for a in
           ([(1, 0, 0), (1, 1, 0)] if t == 'quick' else [(1, 0, 0), (1, 1, 0), (1, 0, 1), (2, 0, 0), (2, 1, 0), (1, 1, 1)])]
-    res += c1.run_jobs(j1)
-    c1.cleanup()
     pre = 2 if t == 'quick' else 3
-    c1b = Check('C16', [MOD + '/internal/notify'], 'internal/notify', ['C16/zz_verif_c16_notify_coop.go'],
-                installers=[seqchan.install], prelude_pkgname='notify')
-    c1b.load([P1 + 'VerifC16NotifyCoop'])
+    c1b = c1
     grid1 = [(1, 0, 0), (1, 1, 0), (2, 0, 0), (2, 1, 0), (1, 0, 1), (1, 1, 1)] if t == 'quick' else [(1, 0, 0), (1, 1, 0), (2, 0, 0), (2, 1, 0), (3, 0, 0), (1, 0, 1), (1, 1, 1), (2, 0, 1), (2, 1, 1)]
-    res += c1b.run_jobs([Job(P1 + 'VerifC16NotifyCoop', a, cfg={'unwind': 8, 'timeout_ms': 60000}, installers=[functools.partial(_coop_inst, pre)], max_paths=300000,
+    res += c1b.run_jobs(j1 + [Job(P1 + 'VerifC16NotifyCoop', a, cfg={'unwind': 8, 'timeout_ms': 60000}, installers=[functools.partial(_coop_inst, pre)], max_paths=300000,
                              label='VerifC16NotifyCoop(%d,%d,%d)[pre<=%d]' % (a + (pre,))) for a in grid1])
     c1b.cleanup()
     # lifecycle manager
-    c2 = Check('C16', [MOD + '/pkg/lifecycle', MOD + '/internal/notify'], 'pkg/lifecycle', ['C16/zz_verif_c16_lifecycle.go'],
-               installers=[seqchan.install, bmc.install], prelude_pkgname='lifecycle')
+    c2 = Check('C16', [MOD + '/pkg/lifecycle', MOD + '/internal/notify'], 'pkg/lifecycle', ['C16/zz_verif_c16_lifecycle.go', 'C16/zz_verif_c16_lifecycle_coop.go'],
+               installers=[seqchan.install], prelude_pkgname='lifecycle')
     P2 = MOD + '/pkg/lifecycle.'
-    c2.load([P2 + 'VerifC16Lifecycle'])
-    j2 = [Job(P2 + 'VerifC16Lifecycle', a, cfg=cfg, max_paths=100000) for a in
+    c2.load([P2 + 'VerifC16Lifecycle', P2 + 'VerifC16LifecycleCoop'])
+    j2 = [Job(P2 + 'VerifC16Lifecycle', a, cfg=cfg, max_paths=100000, installers=[bmc.install]) for a in
           ([(1, 0, 0)] if t == 'quick' else [(1, 0, 0), (1, 1, 0), (1, 0, 1), (2, 0, 0), (1, 2, 0)])]
-    res += c2.run_jobs(j2)
-    c2.cleanup()
-    c2b = Check('C16', [MOD + '/pkg/lifecycle', MOD + '/internal/notify'], 'pkg/lifecycle', ['C16/zz_verif_c16_lifecycle_coop.go'],
-                installers=[seqchan.install], prelude_pkgname='lifecycle')
-    c2b.load([P2 + 'VerifC16LifecycleCoop'])
+    c2b = c2
     grid2 = [(1, 0, 0), (1, 1, 0), (2, 0, 0), (1, 0, 1)] if t == 'quick' else [(1, 0, 0), (1, 1, 0), (1, 2, 0), (2, 0, 0), (2, 1, 0), (1, 0, 1), (2, 0, 1)]
-    res += c2b.run_jobs([Job(P2 + 'VerifC16LifecycleCoop', a, cfg={'unwind': 8, 'timeout_ms': 60000}, installers=[functools.partial(_coop_inst, pre)], max_paths=300000,
+    res += c2b.run_jobs(j2 + [Job(P2 + 'VerifC16LifecycleCoop', a, cfg={'unwind': 8, 'timeout_ms': 60000}, installers=[functools.partial(_coop_inst, pre)], max_paths=300000,
                              label='VerifC16LifecycleCoop(%d,%d,%d)[pre<=%d]' % (a + (pre,))) for a in grid2])
     c2b.cleanup()
     # connectedness manager (root package): status word and notify internals are visible cells, maps pre-populated
-    c3 = Check('C16', [MOD, MOD + '/internal/notify'], '', ['C16/zz_verif_c16_conn.go'],
-               installers=[seqchan.install, bmc.install], prelude_pkgname='weshnet')
+    c3 = Check('C16', [MOD, MOD + '/internal/notify'], '', ['C16/zz_verif_c16_conn.go', 'C16/zz_verif_c16_conn_coop.go'],
+               installers=[seqchan.install], prelude_pkgname='weshnet')
     P3 = MOD + '.'
-    c3.load([P3 + 'VerifC16Connectedness'])
+    c3.load([P3 + 'VerifC16Connectedness', P3 + 'VerifC16ConnCoop'])
     cfg3 = {'unwind': 2, 'unwind_all': 2, 'timeout_ms': 120000, 'chan_pool': 0, 'chan_pool_by_name': {'waiter': 1}}
     if t != 'quick':
         # in the quick tier the connectedness manager is decided by the coop jobs below (seconds, full memory model)
-        res += c3.run_jobs([Job(P3 + 'VerifC16Connectedness', (sc,), cfg=cfg3, max_paths=100000) for sc in (0, 1)])
-    c3.cleanup()
+        res += c3.run_jobs([Job(P3 + 'VerifC16Connectedness', (sc,), cfg=cfg3, max_paths=100000, installers=[bmc.install]) for sc in (0, 1)])
     # the same manager with its real maps under the symbolic scheduler inside the interpreter (coop.py)
-    c4 = Check('C16', [MOD, MOD + '/internal/notify'], '', ['C16/zz_verif_c16_conn_coop.go'],
-               installers=[seqchan.install], prelude_pkgname='weshnet')
-    c4.load([P3 + 'VerifC16ConnCoop'])
+    c4 = c3
     res += c4.run_jobs([Job(P3 + 'VerifC16ConnCoop', (sc,), cfg={'unwind': 6, 'timeout_ms': 60000}, installers=[functools.partial(_coop_inst, pre)],
                             max_paths=200000, label='VerifC16ConnCoop(%d)[pre<=%d]' % (sc, pre)) for sc in (0, 1, 2, 3)])
     c2 = c4
